@@ -6,7 +6,7 @@ used as environment data).
 import copy, math, re, traceback
 
 from coba.exceptions import CobaException
-from coba.primitives import DiscreteReward, BinaryReward, is_batch
+from coba.primitives import DiscreteReward, BinaryReward, Categorical, Rewards, is_batch
 from coba.environments import Batch
 from coba.evaluators.sequential import SequentialCB
 
@@ -21,10 +21,33 @@ ACTSETS = {
     'hi3': lambda: [3, 4, 5],
     'flt': lambda: [0.0, 0.5, 1.0],
     'fhi': lambda: [2.5, 3.5],
+    # categorical actions: Finalize (Repr) turns them into one-hot tuples and has to re-key every reward function
+    'cat': lambda: [HCat(v, ABC) for v in 'abc'],
+    'cat2': lambda: [HCat('c', ABC), HCat('a', ABC)],
 }
 BASE_ACTSETS = ['int', 'str', 'tup', 'map', 'bin']
+CAT_ACTSETS = ['cat', 'cat2']
 CTX_KINDS = ['dense', 'none', 'scalar', 'sparse', 'absent']
+CAT_CTX_KINDS = ['cat', 'dense_cat', 'sparse_cat']
 RWD_KINDS = ['list', 'discrete', 'binary', 'callable']
+RWD_MORE = ['dmap', 'drev', 'custom']      # DiscreteReward as a mapping / in another action order, custom Rewards object
+ABC = ['a', 'b', 'c']
+UVW = ['u', 'v', 'w']
+
+
+class HCat:
+    """Harness-side categorical value (rendered as coba's Categorical for the environment, as its one-hot in the model)."""
+    def __init__(self, value, levels): self.value, self.levels = value, list(levels)
+    def onehot(self): return [1 if l == self.value else 0 for l in self.levels]
+    def __repr__(self): return f'HCat({self.value!r})'
+
+
+def to_coba(x):
+    if isinstance(x, HCat): return Categorical(x.value, list(x.levels))
+    if isinstance(x, list): return [to_coba(v) for v in x]
+    if isinstance(x, tuple): return tuple(to_coba(v) for v in x)
+    if isinstance(x, dict): return {k: to_coba(v) for k, v in x.items()}
+    return x
 
 
 # ------------------------------------------------------------------ environment data (one table, two renderings)
@@ -34,6 +57,9 @@ def ctx_value(kind, i):
     if kind == 'scalar': return 3 + i
     if kind == 'dense': return [1 + i, 2 + i]
     if kind == 'sparse': return {'a': 1 + i}
+    if kind == 'cat': return HCat(UVW[i % 3], UVW)
+    if kind == 'dense_cat': return [1 + i, HCat(UVW[i % 3], UVW), 2 + i]
+    if kind == 'sparse_cat': return {'a': 1 + i, 'c': HCat(UVW[i % 3], UVW)}
     raise ValueError(kind)
 
 
@@ -72,22 +98,31 @@ def _plain_callable(actions, table):
     return rewards
 
 
+class CustomRewards(Rewards):
+    """A user-defined reward function object (neither Binary nor Discrete)."""
+    def __init__(self, actions, table): self._a, self._t = actions, table
+    def __call__(self, action): return self._t[self._a.index(action)]
+
+
 def coba_interactions(env):
     """Fresh interaction dicts for coba, built independently of the model's copy."""
     out = []
     for i, p in enumerate(plain_interactions(env)):
         it = {}
-        if 'context' in p: it['context'] = p['context']
-        if 'actions' in p: it['actions'] = p['actions']
+        if 'context' in p: it['context'] = to_coba(p['context'])
+        if 'actions' in p: it['actions'] = to_coba(p['actions'])
         if 'rtable' in p:
-            k, A, T = env['rwd'], p['actions'], p['rtable']
+            k, A, T = env['rwd'], it['actions'], p['rtable']
             if k == 'list': it['rewards'] = list(T)
             elif k == 'discrete': it['rewards'] = DiscreteReward(A, list(T))
             elif k == 'binary': it['rewards'] = BinaryReward(A[i % len(A)], i + 2)
             elif k == 'callable': it['rewards'] = _plain_callable(list(A), list(T))
+            elif k == 'dmap': it['rewards'] = DiscreteReward({a: t for a, t in reversed(list(zip(A, T)))})
+            elif k == 'drev': it['rewards'] = DiscreteReward(list(reversed(A)), list(reversed(T)))
+            elif k == 'custom': it['rewards'] = CustomRewards(list(A), list(T))
             else: raise ValueError(k)
         for f in ('action', 'reward', 'probability'):
-            if f in p: it[f] = p[f]
+            if f in p: it[f] = to_coba(p[f])
         it.update(p['extras'])
         out.append(it)
     return out
@@ -112,6 +147,29 @@ def norm(x):
     if isinstance(x, dict): return {k: norm(v) for k, v in x.items()}
     if isinstance(x, (list, tuple)): return [norm(v) for v in x]
     return x
+
+
+def nv(x):
+    """Finalize's documented normalisation of one harness-side value (context / action): a categorical becomes its one-hot, inside a
+    dense row the one-hot is spliced in place, inside a sparse row key -> '<key>_<level index>': 1; tuples become lists."""
+    if isinstance(x, HCat): return x.onehot()
+    if isinstance(x, (list, tuple)):
+        out = []
+        for v in x:
+            if isinstance(v, HCat): out.extend(v.onehot())
+            else: out.append(nv(v))
+        return out
+    if isinstance(x, dict):
+        out = {}
+        for k, v in x.items():
+            if isinstance(v, HCat): out[f'{k}_{v.levels.index(v.value)}'] = 1
+            else: out[k] = nv(v)
+        return out
+    return x
+
+
+def na(actions):
+    return None if actions is None else [nv(a) for a in actions]
 
 
 def snap(x):
@@ -292,12 +350,12 @@ def expected_kinds(units, pred, score, lrn):
 
 def ips_reward(p, action):
     """The documented IPS transform: logged reward / logged probability at the logged action, 0 elsewhere."""
-    return p['reward'] / (p.get('probability') or 1) if same(norm(action), norm(p['action'])) else 0
+    return p['reward'] / (p.get('probability') or 1) if same(nv(action), nv(p['action'])) else 0
 
 
 def true_reward(p, action):
-    A = norm(p['actions'])
-    a = norm(action)
+    A = na(p['actions'])
+    a = nv(action)
     for j, b in enumerate(A):
         if same(a, b): return p['rtable'][j]
     return None
@@ -405,23 +463,23 @@ def run_and_compare(env, learn, ev, record, spec):
         if pred:
             for i in u:
                 p = plain[i]
-                exp_trace.append(('predict', norm(p.get('context')), norm(p.get('actions'))))
+                exp_trace.append(('predict', nv(p.get('context')), na(p.get('actions'))))
                 P[i] = choose(spec, k, p.get('actions')); k += 1
         if score:
             for i in u:
                 p = plain[i]
-                exp_trace.append(('score', norm(p.get('context')), norm(p.get('actions')), norm(p['action'])))
+                exp_trace.append(('score', nv(p.get('context')), na(p.get('actions')), nv(p['action'])))
                 S[i] = score_value(j); j += 1
         if lrn:
             for i in u:
                 p = plain[i]
-                x = norm(p.get('context'))
+                x = nv(p.get('context'))
                 if learn == 'off':
-                    exp_trace.append(('learn', x, norm(p['action']), p['reward'], p.get('probability'), {}))
+                    exp_trace.append(('learn', x, nv(p['action']), p['reward'], p.get('probability'), {}))
                 else:
                     a, pr, kw = P[i]
                     r = true_reward(p, a) if learn == 'on' else ips_reward(p, a)
-                    exp_trace.append(('learn', x, norm(a), r, pr, kw))
+                    exp_trace.append(('learn', x, nv(a), r, pr, kw))
         for i in u:
             p = plain[i]
             must, may, absent = {}, {}, set()
@@ -435,14 +493,14 @@ def run_and_compare(env, learn, ev, record, spec):
                 if pred and score: on_r = on_r[::-1]
                 (must if 'reward' in rec else may)['reward'] = on_r
                 if pred:
-                    (must if 'action' in rec else may)['action'] = [norm(a)]
+                    (must if 'action' in rec else may)['action'] = [nv(a)]
                     if pr is not None: (must if 'probability' in rec else may)['probability'] = [pr]
                     else: may['probability'] = [None]
             else:
                 absent |= {'reward', 'action', 'probability'}
             if 'context' in rec:
-                (must if 'context' in p else may)['context'] = [norm(p.get('context'))]
-            if 'actions' in rec and 'actions' in p: must['actions'] = [norm(p['actions'])]
+                (must if 'context' in p else may)['context'] = [nv(p.get('context'))]
+            if 'actions' in rec and 'actions' in p: must['actions'] = [na(p['actions'])]
             if 'rewards' in rec and 'rtable' in p: must['rewards'] = [list(p['rtable'])]
             for kx, vx in p['extras'].items(): must[kx] = [norm(vx)]
             times = set()
